@@ -464,3 +464,31 @@ def run_in_threads(calls, reps, interval=1e-5):
     finally:
         sys.setswitchinterval(old)
     return made[0], bad
+
+
+def thread_probe(ctx, what, calls, reps, case, interval=1e-5):
+    """run_in_threads + bookkeeping: counts the concurrent calls made, reports a `threads` violation for `what`."""
+    from .harness import digest
+    made, bad = run_in_threads(calls, reps, interval)
+    ctx.count('concurrent_thread_calls', made)
+    ctx.case(digest('threads', what, repr(sorted(case.items()))), True)
+    if bad:
+        ctx.violation('threads:' + what.split(' ')[0], '%s called from %d threads of one interpreter at once: %s (each call is deterministic and gives '
+                      'the expected result when run alone)' % (what, len(calls), bad[0]), dict(case, kind='threads'))
+        return False
+    return True
+
+
+@contextlib.contextmanager
+def in_process_pools():
+    """While active, the worker pools the library creates (multiprocessing.Pool) are thread pools of this process
+    (multiprocessing.dummy.Pool, same interface). Used by the thread probes: forking worker processes out of a process that is
+    running several threads is a hazard of its own (locks held by other threads at fork time), and not what is probed."""
+    import multiprocessing
+    import multiprocessing.dummy
+    old = multiprocessing.Pool
+    multiprocessing.Pool = multiprocessing.dummy.Pool
+    try:
+        yield
+    finally:
+        multiprocessing.Pool = old
